@@ -102,22 +102,59 @@ Qed.
 
 (** (skip x)* over the remaining items: ends somewhere inside the trivia before the closing literal
     (pest leaves the last skipped gap unconsumed; after a single item the unconditional skip of e+ is kept) *)
-Lemma items_reps : forall its g i, items_ok its -> ws g = true ->
-  exists g' j, ws g' = true /\ j + slen g' = i + slen g + slen (items_text its) /\
-    repss G true ANon x (g ++ items_text its ++ close ++ rest) i
-      (Ok (g' ++ close ++ rest, j, items_trees its (i + slen g))).
+Lemma items_reps : forall its g, items_ok its -> ws g = true ->
+  exists g' m, ws g' = true /\ m + slen g' = slen g + slen (items_text its) /\
+    (exists c, g ++ items_text its = c ++ g') /\
+    forall i, repss G true ANon x (g ++ items_text its ++ close ++ rest) i
+      (Ok (g' ++ close ++ rest, i + m, items_trees its (i + slen g))).
 Proof.
-  induction its as [|it r IH]; intros g i Hall Hg.
-  - exists g, i. split; [exact Hg|]. split; [cbn [items_text]; change (slen []) with 0; lia|].
+  induction its as [|it r IH]; intros g Hall Hg.
+  - exists g, 0. split; [exact Hg|]. split; [cbn [items_text]; change (slen []) with 0; lia|].
+    split; [exists []; cbn [items_text]; rewrite app_nil_r; reflexivity|].
+    intros i. rewrite N.add_0_r.
     cbn [items_text items_trees app]. eapply repssS_stop; [apply skip_ws; [exact Hg|exact close_token]|apply x_stops].
   - destruct Hall as [[Hgap [Htok Hrun]] Hr].
-    destruct (IH (it_gap it) (i + slen g + slen (it_text it)) Hr Hgap) as [g' [j [Hg' [Hj Hreps]]]].
-    exists g', j. split; [exact Hg'|]. split; [cbn [items_text]; rewrite !slen_app; lia|].
+    destruct (IH (it_gap it) Hr Hgap) as [g' [m [Hg' [Hm [[c Hc] Hreps]]]]].
+    exists g', (slen g + slen (it_text it) + m). split; [exact Hg'|]. split; [cbn [items_text]; rewrite !slen_app; lia|].
+    split; [exists (g ++ it_text it ++ c); cbn [items_text]; rewrite <- !app_assoc, <- Hc; reflexivity|].
+    intros i.
     assert (Htxt : g ++ items_text (it :: r) ++ close ++ rest = g ++ (it_text it ++ it_gap it ++ (items_text r ++ close ++ rest))).
     { cbn [items_text]. rewrite <- !app_assoc. reflexivity. }
     rewrite Htxt.
     replace (items_trees (it :: r) (i + slen g)) with (@nil pr ++ it_tree it (i + slen g) ++ items_trees r (i + slen g + slen (it_text it) + slen (it_gap it))) by reflexivity.
-    eapply repssS_step; [apply skip_ws; [exact Hg|exact Htok]|apply Hrun|exact Hreps].
+    replace (i + (slen g + slen (it_text it) + m)) with (i + slen g + slen (it_text it) + m) by lia.
+    eapply repssS_step; [apply skip_ws; [exact Hg|exact Htok]|apply Hrun|apply Hreps].
+Qed.
+
+(** x+ ~ "close" over a non-empty list of items *)
+Lemma items_plus it its : items_ok (it :: its) ->
+  exists g2 m, ws g2 = true /\ m + slen g2 = slen (it_text it) + slen (it_gap it) + slen (items_text its) /\
+    (exists c, it_text it ++ it_gap it ++ items_text its = c ++ g2) /\
+    forall i, runs G true ANon (Plus x) (it_text it ++ it_gap it ++ (items_text its ++ close ++ rest)) i
+                (Ok (g2 ++ close ++ rest, i + m, items_trees (it :: its) i)).
+Proof.
+  intros [[Hgap [Htok Hrun]] Hr].
+  pose proof (items_tail_token its Hr) as Hk.
+  destruct its as [|it2 r2].
+  - exists [], (slen (it_text it) + slen (it_gap it)). split; [reflexivity|]. split; [cbn [items_text]; change (slen []) with 0; lia|].
+    split; [exists (it_text it ++ it_gap it); cbn [items_text]; rewrite !app_nil_r; reflexivity|].
+    intros i. apply runs_Plus_g. cbn [items_text items_trees app] in *.
+    replace (it_tree it i ++ []) with (it_tree it i ++ @nil pr ++ @nil pr) by reflexivity.
+    replace (i + (slen (it_text it) + slen (it_gap it))) with (i + slen (it_text it) + slen (it_gap it)) by lia.
+    eapply (runs_SeqS_ok gse gse_eq); [apply Hrun|apply skip_ws; [exact Hgap|exact Hk]|].
+    apply runs_Star_stop. apply x_stops.
+  - destruct Hr as [[Hgap2 [Htok2 Hrun2]] Hr2].
+    destruct (items_reps r2 (it_gap it2) Hr2 Hgap2) as [g3 [m3 [Hg3 [Hm3 [[c3 Hc3] Hreps3]]]]].
+    exists g3, (slen (it_text it) + slen (it_gap it) + slen (it_text it2) + m3). split; [exact Hg3|]. split; [cbn [items_text]; rewrite !slen_app; lia|].
+    split; [exists (it_text it ++ it_gap it ++ it_text it2 ++ c3); cbn [items_text]; rewrite <- !app_assoc, <- Hc3; reflexivity|].
+    intros i. apply runs_Plus_g.
+    replace (items_trees (it :: it2 :: r2) i) with (it_tree it i ++ @nil pr ++ (it_tree it2 (i + slen (it_text it) + slen (it_gap it)) ++ items_trees r2 (i + slen (it_text it) + slen (it_gap it) + slen (it_text it2) + slen (it_gap it2)))) by reflexivity.
+    eapply (runs_SeqS_ok gse gse_eq); [apply Hrun|apply skip_ws; [exact Hgap|exact Hk]|].
+    assert (Htxt2 : items_text (it2 :: r2) ++ close ++ rest = it_text it2 ++ it_gap it2 ++ (items_text r2 ++ close ++ rest)).
+    { cbn [items_text]. rewrite <- !app_assoc. reflexivity. }
+    rewrite Htxt2.
+    replace (i + (slen (it_text it) + slen (it_gap it) + slen (it_text it2) + m3)) with (i + slen (it_text it) + slen (it_gap it) + slen (it_text it2) + m3) by lia.
+    eapply runs_Star_step_g; [apply Hrun2|apply Hreps3].
 Qed.
 
 (** x+ ~ "close" over a non-empty list of items *)
@@ -125,38 +162,18 @@ Lemma items_plus_close it its i : items_ok (it :: its) ->
   runs G true ANon (Seq (Plus x) (Lit close)) (items_text (it :: its) ++ close ++ rest) i
     (Ok (rest, i + slen (items_text (it :: its)) + slen close, items_trees (it :: its) i)).
 Proof.
-  intros [[Hgap [Htok Hrun]] Hr].
-  pose proof (items_tail_token its Hr) as Hk.
+  intros Hok. destruct (items_plus it its Hok) as [g2 [m [Hg2 [Hm [_ Hplus]]]]].
   assert (Htxt : items_text (it :: its) ++ close ++ rest = it_text it ++ it_gap it ++ (items_text its ++ close ++ rest)).
   { cbn [items_text]. rewrite <- !app_assoc. reflexivity. }
   rewrite Htxt.
-  assert (Hplus : exists g2 j2, ws g2 = true /\ j2 + slen g2 = i + slen (it_text it) + slen (it_gap it) + slen (items_text its) /\
-            runs G true ANon (Plus x) (it_text it ++ it_gap it ++ (items_text its ++ close ++ rest)) i
-              (Ok (g2 ++ close ++ rest, j2, items_trees (it :: its) i))).
-  { destruct its as [|it2 r2].
-    - exists [], (i + slen (it_text it) + slen (it_gap it)). split; [reflexivity|]. split; [cbn [items_text]; change (slen []) with 0; lia|].
-      apply runs_Plus_g. cbn [items_text items_trees app] in *.
-      replace (it_tree it i ++ []) with (it_tree it i ++ @nil pr ++ @nil pr) by reflexivity.
-      eapply (runs_SeqS_ok gse gse_eq); [apply Hrun|apply skip_ws; [exact Hgap|exact Hk]|].
-      apply runs_Star_stop. apply x_stops.
-    - destruct Hr as [[Hgap2 [Htok2 Hrun2]] Hr2].
-      destruct (items_reps r2 (it_gap it2) (i + slen (it_text it) + slen (it_gap it) + slen (it_text it2)) Hr2 Hgap2) as [g3 [j3 [Hg3 [Hj3 Hreps3]]]].
-      exists g3, j3. split; [exact Hg3|]. split; [cbn [items_text]; rewrite !slen_app; lia|].
-      apply runs_Plus_g.
-      replace (items_trees (it :: it2 :: r2) i) with (it_tree it i ++ @nil pr ++ (it_tree it2 (i + slen (it_text it) + slen (it_gap it)) ++ items_trees r2 (i + slen (it_text it) + slen (it_gap it) + slen (it_text it2) + slen (it_gap it2)))) by reflexivity.
-      eapply (runs_SeqS_ok gse gse_eq); [apply Hrun|apply skip_ws; [exact Hgap|exact Hk]|].
-      assert (Htxt2 : items_text (it2 :: r2) ++ close ++ rest = it_text it2 ++ it_gap it2 ++ (items_text r2 ++ close ++ rest)).
-      { cbn [items_text]. rewrite <- !app_assoc. reflexivity. }
-      rewrite Htxt2.
-      eapply runs_Star_step_g; [apply Hrun2|exact Hreps3]. }
-  destruct Hplus as [g2 [j2 [Hg2 [Hj2 Hplus]]]].
   rewrite <- (app_nil_r (items_trees (it :: its) i)).
   replace (items_trees (it :: its) i ++ []) with (items_trees (it :: its) i ++ @nil pr ++ @nil pr) by reflexivity.
-  eapply (runs_SeqS_ok gse gse_eq); [exact Hplus|apply skip_ws; [exact Hg2|exact close_token]|].
-  replace (i + slen (items_text (it :: its)) + slen close) with (j2 + slen g2 + slen close)
+  eapply (runs_SeqS_ok gse gse_eq); [apply Hplus|apply skip_ws; [exact Hg2|exact close_token]|].
+  replace (i + slen (items_text (it :: its)) + slen close) with (i + m + slen g2 + slen close)
     by (cbn [items_text]; rewrite !slen_app; lia).
-  exact (runs_Lit_ok G true ANon close rest (j2 + slen g2)).
+  exact (runs_Lit_ok G true ANon close rest (i + m + slen g2)).
 Qed.
+
 End Items.
 
 (** ** what may follow a value *)
